@@ -8,7 +8,7 @@ def run(prop, tier, seed):
     wd = vlib.workdir(prop)
     cfg = "C20.cfg" if tier == "quick" else "C20_thorough.cfg"
     # exhaustive enumeration: nothing random, `seed` only recorded
-    cases, states, twall = ecommon.enumerate_sharded(prop, "C20.tla", cfg, 2 if tier == "quick" else 6)
+    cases, states, twall = ecommon.enumerate_sharded(prop, "C20.tla", cfg, 2 if tier == "quick" else 4)
     run_cases, obs, failed, hwall = ecommon.judge(rep, cases, wd, "assignment")
     fset = set(failed)
     forms = {c["form"] for c in run_cases}
